@@ -24,7 +24,10 @@ Section Reach.
   Variable vals : list (range * sexp).
   Variable funcs : fsigs.
   Variable parens : range_table.
+  Variable cparens : paren_table.
   Variable p : pos.
+  (* a closing parenthesis is one byte (or missing) *)
+  Hypothesis cparens_wf : forall r o c, lookup_parens cparens r = Some (o, c) -> re c <= rs c + 1.
 
   Notation PP := (p_byte p).
 
@@ -51,7 +54,7 @@ Section Reach.
   | CCond r c a b : wfc c -> wfc a -> wfc b -> wfc_node r (NCond c a b)
   | CFor r coll k v c : wfc coll -> (forall x, k = Some x -> wfc x) -> wfc v -> (forall x, c = Some x -> wfc x) -> wfc_node r (NFor coll k v c)
   | CIndex r k : wfc k -> wfc_node r (NIndex k)
-  | CCall r name nr args : rs r <= rs nr -> re nr <= re r -> Forall wfc args -> wfc_node r (NCall name nr args)
+  | CCall r name nr args : rs r <= rs nr -> rs nr <= re nr -> re nr <= re r -> Forall wfc args -> wfc_node r (NCall name nr args)
   | COther r : wfc_node r NOther
   with wfc_item : sitem -> Prop :=
   | CItem kr k v : re kr <= re (se_rng v) -> wfc v -> (forall pe, k = SKParens pe -> wfc pe) -> wfc_item (SItem kr k v).
@@ -84,6 +87,8 @@ Section Reach.
   Section Step.
     Variable rec : constraint -> cexpr -> vres.
     Hypothesis Hrec : forall c e, cexpr_wf e -> vres_ok (rec c e).
+    Variable rec_td : cexpr -> vres.
+    Hypothesis Hrec_td : forall e, cexpr_wf e -> vres_ok (rec_td e).
 
     Ltac open_c e Hw r vt n Hn := destruct e as [r vt n]; inversion Hw as [? ? ? Hn]; subst; cbn [se_rng se_node se_vt] in *.
 
@@ -360,7 +365,7 @@ Section Reach.
     Lemma call_ok x : wfc x -> vres_ok (call_cands file empties funcs parens p rec x).
     Proof.
       intros Hw. open_c x Hw r vt n Hn. unfold call_cands. cbn [se_node se_rng]. destruct n; try apply ok_nil.
-      inversion Hn as [| | | | | | | | | | | |? ? ? ? Hs He Hargs|]; subst.
+      inversion Hn as [| | | | | | | | | | | |? ? ? ? Hs Hne He Hargs|]; subst.
       destruct (contains_pos name_rng p) eqn:Ec.
       - apply ok_ret. constructor; [|constructor]. unfold item_ok; cbn.
         unfold contains_pos, contains_offset in Ec. apply andb_prop in Ec as (E1 & E2). apply Z.leb_le in E1. apply Z.ltb_lt in E2.
@@ -423,7 +428,7 @@ Section Reach.
       destruct t; try exact Hnc; destruct (se_node x); try exact Hnc; try (apply Hrec; exact Hw).
     Qed.
 
-    Lemma step_ok c e : cexpr_wf e -> vres_ok (step_cands prefill file opens empties vals funcs parens p rec c e).
+    Lemma step_ok c e : cexpr_wf e -> vres_ok (step_cands prefill file opens empties vals funcs parens p rec rec_td c e).
     Proof.
       intros Hw. destruct c; cbn [step_cands].
       - apply any_ok; exact Hw.
@@ -431,7 +436,7 @@ Section Reach.
       - apply literal_value_ok; exact Hw.
       - apply keyword_ok; exact Hw.
       - destruct addr_scope; [apply ok_nil|apply ref_items_ok].
-      - apply ok_skip.
+      - apply Hrec_td; exact Hw.
       - apply list_ok; exact Hw.
       - apply list_ok; exact Hw.
       - apply tuple_ok; exact Hw.
@@ -441,11 +446,110 @@ Section Reach.
     Qed.
   End Step.
 
+
+  Lemma all_type_decls_ok prefix sb eb : sb <= PP <= eb -> Forall item_ok (all_type_decls prefix sb eb).
+  Proof.
+    intros H. unfold all_type_decls. repeat (apply Forall_app; split); destruct (bytes_prefix _ _); try (constructor; [exact H|constructor]); constructor.
+  Qed.
+
+  Lemma td_norm_wf x : wfc x -> cexpr_wf (td_norm empties x).
+  Proof. intros H. unfold td_norm. destruct (se_node x); cbn; auto. destruct (existsb _ _); cbn; auto. Qed.
+
+  Section StepTd.
+    Variable rec_td : cexpr -> vres.
+    Hypothesis Hrec_td : forall e, cexpr_wf e -> vres_ok (rec_td e).
+
+    Ltac tdok :=
+      repeat first
+        [ assumption | apply ok_nil | apply ok_skip | apply ok_none
+        | apply ok_ret; first [ apply all_type_decls_ok; unfold tP, pb; lia | constructor; [unfold item_ok, td_attr_item, td_item, tP, pb; cbn; lia|constructor] ]
+        | match goal with |- vres_ok (match ?x with _ => _ end) => destruct x eqn:? end
+        | match goal with |- vres_ok (if ?b then _ else _) => destruct b eqn:? end ].
+
+    Lemma td_items_ok items : Forall wfc_item items -> forall rcv ll,
+      match td_items empties p rec_td items rcv ll with DReturn r => vres_ok r | DFall _ _ _ => True end.
+    Proof.
+      induction items as [|[kr k v] r IH]; intros HF rcv ll; cbn [td_items]; [exact I|].
+      inversion HF as [|? ? Hi Hr]; subst. inversion Hi as [? ? ? Hke Hv Hpe]; subst.
+      destruct (_ && _); [apply ok_nil|]. destruct (Z.ltb _ _); [exact I|].
+      destruct (contains_pos kr p); [apply ok_nil|].
+      destruct (at_or_end _ _); [apply Hrec_td; apply td_norm_wf; exact Hv|apply IH; exact Hr].
+    Qed.
+
+    Lemma td_elem_at_wf elems y : Forall wfc elems -> td_elem_at p elems = Some y -> wfc y.
+    Proof.
+      induction elems as [|x r IH]; intros HF H; cbn [td_elem_at] in H; [discriminate|].
+      inversion HF as [|? ? Hx Hr]; subst. destruct (at_or_end _ _); [injection H as <-; exact Hx|apply IH; assumption].
+    Qed.
+
+    Lemma object_td_ok o c args : re o <= PP <= rs c -> Forall wfc args -> vres_ok (object_td file opens empties p rec_td o c args).
+    Proof.
+      intros Hoc HF. unfold object_td. destruct args as [|a [|]]; try apply ok_nil.
+      - apply ok_ret. constructor; [unfold item_ok, td_item; cbn; exact Hoc|constructor].
+      - inversion HF as [|? ? Ha _]; subst. destruct a as [r vt n]. inversion Ha as [? ? ? Hn]; subst. cbn [se_node se_rng].
+        destruct n; try apply ok_nil. inversion Hn as [| | | | |? ? Hitems| | | | | | | |]; subst.
+        destruct (negb _); [apply ok_nil|]. cbv zeta.
+        assert (Hnil : Forall wfc_item []) by constructor.
+        destruct items as [|it its].
+        + destruct (trim_space _ _); [tdok|]. destruct (last_is _ _); [tdok|].
+          match goal with |- context [td_items ?a ?b ?c0 ?d ?e0 ?f] =>
+            pose proof (td_items_ok d Hnil e0 f) as Hm; destruct (td_items a b c0 d e0 f); [exact Hm|tdok] end.
+        + match goal with |- context [td_items ?a ?b ?c0 ?d ?e0 ?f] =>
+            pose proof (td_items_ok d Hitems e0 f) as Hm; destruct (td_items a b c0 d e0 f); [exact Hm|tdok] end.
+    Qed.
+
+    Lemma tuple_td_ok o c args : re o <= PP <= rs c -> Forall wfc args -> vres_ok (tuple_td opens empties p rec_td o c args).
+    Proof.
+      intros Hoc HF. unfold tuple_td. destruct args as [|a [|]]; try apply ok_nil.
+      - apply ok_ret. constructor; [unfold item_ok, td_item; cbn; exact Hoc|constructor].
+      - inversion HF as [|? ? Ha _]; subst. destruct a as [r vt n]. inversion Ha as [? ? ? Hn]; subst. cbn [se_node se_rng].
+        destruct n; try apply ok_nil. inversion Hn; subst.
+        destruct (td_elem_at p elems) as [y|] eqn:Ey; [apply Hrec_td; apply td_norm_wf; eapply td_elem_at_wf; eassumption|].
+        tdok.
+    Qed.
+
+    Lemma type_decl_ok e : cexpr_wf e -> vres_ok (type_decl_cands file opens empties cparens p rec_td e).
+    Proof.
+      intros Hw. destruct e as [|x]; cbn [type_decl_cands]; [tdok|].
+      cbn in Hw. destruct x as [r vt n]. inversion Hw as [? ? ? Hn]; subst. cbn [se_node se_rng].
+      destruct n; try apply ok_nil.
+      - destruct steps as [|s0 [|]]; try apply ok_nil.
+        inversion Hn as [? ? ? ? Hlen Hroot| | | | | | | | | | | | |]; subst.
+        destruct (_ || _) eqn:Eg; [apply ok_nil|].
+        apply orb_false_elim in Eg as (E1 & E2). apply Z.ltb_ge in E1. apply Z.ltb_ge in E2.
+        apply ok_ret. apply all_type_decls_ok. unfold tP, pb in *. lia.
+      - inversion Hn as [| | | | | | | | | | | |? ? ? ? Hs Hne He Hargs|]; subst.
+        destruct (_ || _) eqn:Ec.
+        + apply ok_ret. apply all_type_decls_ok.
+          apply orb_prop in Ec as [Ec|Ec].
+          * unfold contains_pos, contains_offset in Ec. apply andb_prop in Ec as (E1 & E2). apply Z.leb_le in E1. apply Z.ltb_lt in E2. unfold rs, re in *. lia.
+          * apply Z.eqb_eq in Ec. unfold tP, pb, rs, re in *.
+            (* the name's range is well formed only under the parser contract: its end is not before the call's start *)
+            lia.
+        + destruct (lookup_parens cparens r) as [[o c]|] eqn:El; [|apply ok_nil].
+          destruct (_ && _) eqn:Ein; [|apply ok_nil].
+          apply andb_prop in Ein as (E1 & E2). apply Z.leb_le in E1. apply Z.ltb_lt in E2.
+          pose proof (cparens_wf _ _ _ El) as Hc.
+          assert (Hoc : re o <= PP <= rs c) by (unfold tP, pb in *; lia).
+          destruct (is_elem_type_name name).
+          * destruct args as [|a [|]]; [| |apply ok_nil].
+            -- apply ok_ret. apply all_type_decls_ok. exact Hoc.
+            -- destruct (contains_pos (se_rng a) p); [|apply ok_nil]. apply Hrec_td. apply td_norm_wf. inversion Hargs; assumption.
+          * destruct (String.eqb name "object"); [apply object_td_ok; assumption|].
+            destruct (String.eqb name "tuple"); [apply tuple_td_ok; assumption|apply ok_nil].
+    Qed.
+  End StepTd.
+
+  Lemma type_cands_ok fuel : forall e, cexpr_wf e -> vres_ok (type_cands file opens empties cparens p fuel e).
+  Proof.
+    induction fuel as [|n IH]; intros e Hw; cbn [type_cands]; [apply ok_none|]. apply type_decl_ok; [exact IH|exact Hw].
+  Qed.
+
   (* every candidate and every place reserved for reference / function candidates reaches the cursor *)
-  Theorem value_cands_reach_cursor fuel : forall c e, cexpr_wf e -> vres_ok (value_cands prefill file opens empties vals funcs parens p fuel c e).
+  Theorem value_cands_reach_cursor fuel : forall c e, cexpr_wf e -> vres_ok (value_cands prefill file opens empties vals funcs parens cparens p fuel c e).
   Proof.
     induction fuel as [|n IH]; intros c e Hw; cbn [value_cands]; [apply ok_none|].
-    apply step_ok; [exact IH|exact Hw].
+    apply step_ok; [exact IH|apply type_cands_ok|exact Hw].
   Qed.
 End Reach.
 
@@ -471,6 +575,7 @@ Section Keywords.
   Variable vals : list (range * sexp).
   Variable funcs : fsigs.
   Variable parens : range_table.
+  Variable cparens : paren_table.
   Variable p : pos.
 
   Definition kw_item (c : constraint) (i : vitem) : Prop :=
@@ -520,6 +625,8 @@ Section Keywords.
   Section StepK.
     Variable rec : constraint -> cexpr -> vres.
     Hypothesis Hrec : forall c e, vres_kw c (rec c e).
+    Variable rec_td : cexpr -> vres.
+    Hypothesis Hrec_td : forall c e, vres_kw c (rec_td e).
 
     Lemma rec_any c t s e : vres_kw c (rec (CAny t s) e).
     Proof. eapply kw_weaken; [|apply Hrec]. intros kw H. exfalso. eapply no_kw_any; eassumption. Qed.
@@ -775,7 +882,7 @@ Section Keywords.
         match goal with Hk : has_kw (as_cons _) _ |- _ => cbn in Hk; eapply no_kw_lit; exact Hk end.
     Qed.
 
-    Lemma step_kw c e : vres_kw c (step_cands prefill file opens empties vals funcs parens p rec c e).
+    Lemma step_kw c e : vres_kw c (step_cands prefill file opens empties vals funcs parens p rec rec_td c e).
     Proof.
       destruct c; cbn [step_cands].
       - apply any_kw.
@@ -783,7 +890,7 @@ Section Keywords.
       - apply literal_value_kw.
       - apply keyword_kw.
       - destruct addr_scope; [apply kw_nil|apply ref_items_kw].
-      - apply kw_skip.
+      - apply Hrec_td.
       - apply list_kw; [unfold kList, kKeyword; discriminate|]. intros ec kw -> H. constructor. exact H.
       - apply list_kw; [unfold kSet, kKeyword; discriminate|]. intros ec kw -> H. constructor. exact H.
       - apply tuple_kw. intros c' kw Hin H. econstructor; eassumption.
@@ -793,9 +900,59 @@ Section Keywords.
     Qed.
   End StepK.
 
-  Theorem value_cands_keywords_admitted fuel : forall c e, vres_kw c (value_cands prefill file opens empties vals funcs parens p fuel c e).
+
+  Lemma all_type_decls_other prefix sb eb : Forall other_kind (all_type_decls prefix sb eb).
   Proof.
-    induction fuel as [|n IH]; intros c e; cbn [value_cands]; [apply kw_none|]. apply step_kw. exact IH.
+    unfold all_type_decls. repeat (apply Forall_app; split); destruct (bytes_prefix _ _);
+      try (constructor; [unfold other_kind, td_item; cbn; unfold kKeyword; discriminate|constructor]); constructor.
+  Qed.
+
+  Section StepTdK.
+    Variable rec_td : cexpr -> vres.
+    Hypothesis Hrec_td : forall c e, vres_kw c (rec_td e).
+
+    Ltac tdkw :=
+      repeat first
+        [ apply Hrec_td | apply kw_nil | apply kw_skip | apply kw_none
+        | apply kw_ret, kw_other; first [ apply all_type_decls_other | constructor; [unfold other_kind, td_attr_item, td_item; cbn; unfold kKeyword; discriminate|constructor] ]
+        | match goal with |- vres_kw _ (match ?x with _ => _ end) => destruct x end
+        | match goal with |- vres_kw _ (if ?b then _ else _) => destruct b end ].
+
+    Lemma td_items_kw c items : forall rcv ll,
+      match td_items empties p rec_td items rcv ll with DReturn r => vres_kw c r | DFall _ _ _ => True end.
+    Proof.
+      induction items as [|[kr k v] r IH]; intros rcv ll; cbn [td_items]; [exact I|].
+      destruct (_ && _); [apply kw_nil|]. destruct (Z.ltb _ _); [exact I|].
+      destruct (contains_pos kr p); [apply kw_nil|]. destruct (at_or_end _ _); [apply Hrec_td|apply IH].
+    Qed.
+
+    Lemma type_decl_kw c e : vres_kw c (type_decl_cands file opens empties cparens p rec_td e).
+    Proof.
+      destruct e as [|x]; cbn [type_decl_cands]; [tdkw|].
+      destruct (se_node x); try apply kw_nil; [tdkw|].
+      destruct (_ || _); [tdkw|]. destruct (lookup_parens _ _) as [[o c0]|]; [|apply kw_nil].
+      destruct (_ && _); [|apply kw_nil]. destruct (is_elem_type_name _); [tdkw|].
+      destruct (String.eqb _ "object").
+      - unfold object_td. destruct args as [|a [|]]; try apply kw_nil; [tdkw|].
+        destruct (se_node a); try apply kw_nil. destruct (negb _); [apply kw_nil|]. cbv zeta.
+        destruct items as [|it its].
+        + destruct (trim_space _ _); [tdkw|]. destruct (last_is _ _); [tdkw|].
+          match goal with |- context [td_items ?a0 ?b ?c1 ?d ?e0 ?f] =>
+            pose proof (td_items_kw c d e0 f) as Hm; destruct (td_items a0 b c1 d e0 f); [exact Hm|tdkw] end.
+        + match goal with |- context [td_items ?a0 ?b ?c1 ?d ?e0 ?f] =>
+            pose proof (td_items_kw c d e0 f) as Hm; destruct (td_items a0 b c1 d e0 f); [exact Hm|tdkw] end.
+      - destruct (String.eqb _ "tuple"); [|apply kw_nil]. unfold tuple_td. tdkw.
+    Qed.
+  End StepTdK.
+
+  Lemma type_cands_kw fuel : forall c e, vres_kw c (type_cands file opens empties cparens p fuel e).
+  Proof.
+    induction fuel as [|n IH]; intros c e; cbn [type_cands]; [apply kw_none|]. apply type_decl_kw. exact IH.
+  Qed.
+
+  Theorem value_cands_keywords_admitted fuel : forall c e, vres_kw c (value_cands prefill file opens empties vals funcs parens cparens p fuel c e).
+  Proof.
+    induction fuel as [|n IH]; intros c e; cbn [value_cands]; [apply kw_none|]. apply step_kw; [exact IH|intros c' e'; apply type_cands_kw].
   Qed.
 End Keywords.
 
